@@ -51,7 +51,7 @@ func init() {
 	register(&Def{
 		ID:          "C18",
 		Technique:   "edge-condition extraction at the bridge's gate, status-constant table, lock-step predicate agreement between the Notify flag and the caller-id list, index provenance of SetID, id-counter rule of the shared client",
-		Explanation: "Decides: (D1) the internal serve function is reached exactly when a parse hook is set or method == POST ∧ media type == application/json ∧ charset ∈ {absent, utf-8, utf8}; the failing edges write 405/415 and a failed serve an error status; (D2) the caller's id is recorded exactly when the spec appended in the same iteration is not a notification (negated predicate on the same member field) and response i is relabelled with recorded id i; (D3) a spec is appended only for members without a static error, whose own error object is appended instead; (D4) 204 exactly when the combined result list is empty, bare object exactly for one result; (D5) the shared client issues fresh ids (C04-D1). (D6) ParseRequests reports the null-normalised id. (D7) ParseRequests receives the complete body (io.ReadAll's result).",
+		Explanation: "Decides: (D1) the internal serve function is reached exactly when a parse hook is set or method == POST ∧ media type == application/json ∧ charset ∈ {absent, utf-8, utf8}; the failing edges write 405/415 and a failed serve an error status; (D2) the caller's id is recorded exactly when the spec appended in the same iteration is not a notification (negated predicate on the same member field) and response i is relabelled with recorded id i; (D3) a spec is appended only for members without a static error, whose own error object is appended instead; (D4) 204 exactly when the combined result list is empty, bare object exactly for one result; (D5) the shared client issues fresh ids (C04-D1). (D6) ParseRequests reports the null-normalised id. (D7) ParseRequests receives the complete body (io.ReadAll's result). (D8) the server's per-batch duplicate table records only members that have an id (the notifications of one POST are never taken for duplicates of each other).",
 		NotDecided:  []string{"'exactly its own responses' under concurrent callers reduces to C04/C01 and is not re-argued"},
 		Assumptions: []string{"mime.ParseMediaType semantics"},
 		RuleText:    ruleText,
@@ -63,6 +63,9 @@ func init() {
 			ruleParseRequestsNormalisesID(c)
 			ruleBridgeParsesWholeBody(c)
 			ruleConstantFormats(c)
+			if d := dispatchOrUndecided(c, "ROLE.dispatch"); d != nil {
+				ruleDupTableHoldsOnlyIDs(c, d)
+			}
 			c.Clause("C18-D5")
 			ruleAtomicCounter(c, "client", c.M.CNextID)
 		},
@@ -70,7 +73,7 @@ func init() {
 	register(&Def{
 		ID:          "C19",
 		Technique:   "status-constant table of the Getter, dynamic-type inventory and finiteness guard for query parameters, obtained-response/Body.Close pairing, goroutine accounting in jhttp.Channel",
-		Explanation: "Decides: (D1) the Getter writes 400 on the parse-error edge, 404 under ErrorCode == MethodNotFound, 500 otherwise, 200 on success, and bodies are checked json.Marshal results; (D2) every value stored into a parameter map is a string, int64, bool, []byte, nil or a float64 that — when it comes from strconv.ParseFloat — is guarded by ¬IsNaN ∧ ¬IsInf; (D3) a successful parse returns strings.Trim(path, \"/\") on its non-empty edge; (D4) every function that takes HTTP responses off the result channel closes their bodies, and the sender closes or forwards every response it obtains; (D5) the per-POST goroutine is registered with the WaitGroup before it starts and the closer goroutine waits for it before closing the result channel. (D6) every path through the Getter's ServeHTTP writes a response. (D7) option accessors with a default supply it whenever the option is unset (the HTTP client is never nil); a string stored by ParseQuery is a whole query value or encoding/json's decoding of it. (D8) no case folding in the typing of query values.",
+		Explanation: "Decides: (D1) the Getter writes 400 on the parse-error edge, 404 under ErrorCode == MethodNotFound, 500 otherwise, 200 on success, and bodies are checked json.Marshal results; (D2) every value stored into a parameter map is a string, int64, bool, []byte, nil or a float64 that — when it comes from strconv.ParseFloat — is guarded by ¬IsNaN ∧ ¬IsInf; (D3) a successful parse returns strings.Trim(path, \"/\") on its non-empty edge; (D4) every function that takes HTTP responses off the result channel closes their bodies, and the sender closes or forwards every response it obtains; (D5) the per-POST goroutine is registered with the WaitGroup before it starts and the closer goroutine waits for it before closing the result channel. (D6) every path through the Getter's ServeHTTP writes a response. (D7) option accessors with a default supply it whenever the option is unset (the HTTP client is never nil); a string stored by ParseQuery is a whole query value or encoding/json's decoding of it. (D8) no case folding in the typing of query values. Also decided: the query parsers call ParseForm on every path, return its error and use no lenient accessor (URL.Query); the Getter writes the result's own bytes with 200.",
 		NotDecided:  []string{"the typing cascade for every string (strconv's number language is wider than documented)", "result equivalence over the HTTP channel"},
 		Assumptions: []string{"net/http client contract: a non-nil response has a non-nil Body"},
 		RuleText:    ruleText,
@@ -81,6 +84,8 @@ func init() {
 			ruleQueryParams(c)
 			ruleQueryStringsWhole(c)
 			ruleQueryValuesCaseSensitive(c)
+			ruleQueryFromParsedForm(c)
+			ruleGetterForwardsRawResult(c)
 			ruleQuerySliceBounds(c)
 			c.Clause("C19-D4")
 			ruleBodiesClosed(c)
